@@ -207,24 +207,37 @@ def run(tier, seed, ck=None):
 
 def battery(ck):
     """a failed obligation above the kernel layer: replay boundary and seeded operands through the public API"""
+    cases = api_cases(ck.seed, ck.extra.get('_powcex', []))
+    path = ck.save_replay({'property': ck.pid, 'cases': cases})
+    ok, out = core.go_test(path)
+    if not ok and 'MISMATCH' in out:
+        ck.violation('scalar-api', 'scalar arithmetic wrong through the public API: %s' % [l.strip() for l in out.splitlines() if 'MISMATCH' in l][:1], path)
+    else:
+        ck.inconclusive.append('failed obligation did not reproduce on boundary/seeded operands')
+
+
+def api_cases(seed, powcex):
     import random
-    rng = random.Random(7 + ck.seed)
+    rng = random.Random(7 + seed)
     vals = [0, 1, 2, N - 1, N - 2, 2**64 - 1, 2**64, 2**128, 2**255, (N - 1) // 2] + [rng.randrange(N) for _ in range(6)]
     cases = []
     for op in ('add', 'sub', 'mul', 'square', 'invert', 'add-self', 'sub-self', 'mul-self', 'pow', 'pow-self', 'set-self', 'one', 'minusone', 'zero'):
         for a in vals[:8] + vals[-3:]:
             for b in (vals[:5] + vals[-2:]) if op in ('add', 'sub', 'mul', 'pow') else [1]:
                 cases.append({'kind': 'scalar-op', 'op': op, 'a': '%064x' % a, 'b': '%064x' % b})
-    for a, b in ck.extra.get('_powcex', [])[:6]:
+    for a, b in powcex[:6]:
         cases.insert(0, {'kind': 'scalar-op', 'op': 'pow', 'a': '%064x' % a, 'b': '%064x' % b})
     for u in (0, 1, 2**64 - 1, 2**63, rng.getrandbits(64)):
         cases.append({'kind': 'scalar-op', 'op': 'setuint64', 'a': '%064x' % 5, 'b': '%064x' % 1, 'u': u})
-    path = ck.save_replay({'property': 'C06', 'cases': cases})
-    ok, out = core.go_test(path)
-    if not ok and 'MISMATCH' in out:
-        ck.violation('scalar-api', 'scalar arithmetic wrong through the public API: %s' % [l.strip() for l in out.splitlines() if 'MISMATCH' in l][:1], path)
-    else:
-        ck.inconclusive.append('failed obligation did not reproduce on boundary/seeded operands')
+    # operands whose Montgomery form is sparse (low limbs zero) and words at the top of the uint64 range
+    Ri = pow(R, -1, N)
+    for mv in (2**32, 5 * 2**32, 2**64, 3 * 2**64, 2**96, 2**128, 2**192):
+        for v in (mv % N, mv * Ri % N):
+            for op in ('square', 'invert', 'mul-self', 'add-self'):
+                cases.append({'kind': 'scalar-op', 'op': op, 'a': '%064x' % v, 'b': '%064x' % 1})
+    for u in (2**64 - 1, 0xc973e8ecba39100a, 0xc973e8ecba391009, 2**63 + 12345, 0xffffffff00000000):
+        cases.append({'kind': 'scalar-op', 'op': 'setuint64', 'a': '%064x' % 5, 'b': '%064x' % 1, 'u': u})
+    return cases
 
 
 def replay(path):
